@@ -345,8 +345,10 @@ def concrete_check(spec, spaced, vals, w=None):
     T.PyAlg.fscale = 0.0
     try:
         ref, dom = reference(lv, etext, info, w["lang"], False)
+    except (R.RefError, ArithmeticError, ValueError):
+        return "skip"       # the exact value does not exist (division by zero, overflow, outside a function's domain)
     except Exception as e:  # noqa
-        return "skip"
+        raise common.HarnessError("reference evaluation failed on %r: %r" % (etext, e))
     if not dom.ok or ref != ref or T.PyAlg.overflow:
         return "skip"      # outside the property's domain
     if isinstance(ref, (float, complex)) and not U.finite(ref):
